@@ -35,6 +35,35 @@ OPS = [
     (r"\.clone\(\)\)\);", ".clone()));\n        acc.reverse();"),
 ]
 
+# second generation (sweep 2): direction swaps, statement deletion, constant/identifier swaps, sibling calls
+OPS2 = [
+    (r" < ", " > "), (r" > ", " < "), (r" <= ", " >= "), (r" >= ", " <= "),
+    (r"\bfirst\b", "second"), (r"\bsecond\b", "first"), (r"\bf < s\b", "s < f"), (r"\bf > s\b", "s > f"),
+    (r"Ok\(true\)", "Ok(false)"), (r"Ok\(false\)", "Ok(true)"), (r"Some\(true\)", "Some(false)"), (r"Some\(false\)", "Some(true)"),
+    (r"=> true,", "=> false,"), (r"=> false,", "=> true,"),
+    (r"\.chars\(\)\.count\(\)", ".len()"), (r"\.chars\(\)", ".chars().rev()"), (r"\.trim_matches\(is_js_whitespace\)", ".trim()"), (r"\.trim\(\)", ""),
+    (r"is_ascii_digit\(\)", "is_numeric()"), (r"is_digit\(radix\)", "is_digit(10)"), (r"to_digit\(radix\)", "to_digit(16)"),
+    (r"\"current\"", "\"accumulator\""), (r"\"accumulator\"", "\"current\""), (r"\"-\"", "\"\""), (r"'\.'", "','"), (r"'\\\\'", "'/'"),
+    (r"\"null\"", "\"\""), (r"String::from\(\"\"\)", "String::from(\"null\")"), (r"\.join\(\",\"\)", ".join(\", \")"),
+    (r"Some\(16\)", "Some(8)"), (r"Some\(8\)", "Some(16)"), (r"Some\(2\)", "Some(8)"),
+    (r"f64::INFINITY", "f64::MAX"), (r"f64::NEG_INFINITY", "f64::MIN"),
+    (r"checked_sub\(([^)]*)\)\.unwrap_or\(0\)", r"saturating_sub(\1).max(1)"), (r"cmp::max", "cmp::min"),
+    (r"unsigned_abs\(\)", "abs() as u64"), (r"as_i64\(\)", "as_f64().map(|f| f as i64)"),
+    (r"\.unwrap_or\(&NULL\)", ".unwrap_or(&args[0])"), (r"\.unwrap_or\(NULL\)", ".unwrap_or(Value::Bool(false))"),
+    (r"Evaluated::New", "Evaluated::Raw"), (r"\.evaluate\(data\)", ".evaluate(&NULL)"), (r"\.evaluate\(&data\)", ".evaluate(&NULL)"),
+    (r"Value::Array\(_\) => true", "Value::Array(_) => false"), (r"Value::Object\(_\) => true", "Value::Object(_) => false"),
+    (r"\.fold\(Ok\(true\)", ".fold(Ok(false)"), (r"\.fold\(Ok\(false\)", ".fold(Ok(true)"),
+    (r"!contains", "contains"), (r"\.contains\(", ".starts_with("),
+    (r"len\(\) == 1", "len() >= 1"), (r"len\(\) == 0", "len() <= 1"), (r"\.is_empty\(\)", ".len() == 1"),
+    (r"i % 2 == 0", "i % 2 == 1"), (r"% 2", "% 3"),
+    (r"Value::Null => String::from\(\"\"\)", "Value::Null => String::from(\"null\")"),
+    (r"PrimitiveHint::Number", "PrimitiveHint::String"), (r"PrimitiveHint::Default", "PrimitiveHint::String"),
+    (r"required\(true\)", "required(false)"),
+    (r"println!", "print!"), (r"result\.to_string\(\)", "result"), (r"\?;", ".ok();"),
+]
+# whole-line deletions: simple statements without bindings
+DELETE_LINE = re.compile(r"^\s*(\w+(\.\w+)*\.(clear|push|push_str|insert|reverse|sort|dedup|truncate)\(.*\);|\w+ = (true|false);|return Ok\(.*\);)\s*$")
+
 
 def code_region(path):
     s = open(path).read()
@@ -59,7 +88,7 @@ def in_string_or_comment(line, pos):
     return bool(q)
 
 
-def generate(outdir):
+def generate(outdir, gen=1):
     os.makedirs(outdir, exist_ok=True)
     cands = []
     for f in FILES:
@@ -73,13 +102,15 @@ def generate(outdir):
             if stripped.startswith("//") or stripped.startswith("///") or stripped.startswith("#[") or stripped.startswith("use "):
                 off += len(line) + 1
                 continue
-            for (pat, rep) in OPS:
+            if gen >= 2 and DELETE_LINE.match(line):
+                a, b = off, off + len(line)
+                cands.append({"file": f, "line": ln + 1, "op": "delete statement", "before": line.strip()[:160], "start": a, "end": b, "rep": ""})
+            for (pat, rep) in (OPS if gen == 1 else OPS2):
                 for m in re.finditer(pat, line):
                     if in_string_or_comment(line, m.start()):
                         continue
                     a = off + m.start()
                     b = off + m.end()
-                    new = s[:a] + re.sub(pat, rep, s[a:b], count=1) + s[b:]
                     cands.append({"file": f, "line": ln + 1, "op": "%s → %s" % (pat, rep), "before": line.strip()[:160], "start": a, "end": b, "rep": re.sub(pat, rep, s[a:b], count=1)})
             off += len(line) + 1
     for i, c in enumerate(cands):
@@ -175,4 +206,5 @@ def judge(outdir, nj):
 if __name__ == "__main__":
     cmd, outdir = sys.argv[1], sys.argv[2]
     nj = int(sys.argv[sys.argv.index("-j") + 1]) if "-j" in sys.argv else 6
-    {"generate": lambda: generate(outdir), "survive": lambda: survive(outdir, nj), "judge": lambda: judge(outdir, nj)}[cmd]()
+    gen = int(sys.argv[sys.argv.index("--gen") + 1]) if "--gen" in sys.argv else 1
+    {"generate": lambda: generate(outdir, gen), "survive": lambda: survive(outdir, nj), "judge": lambda: judge(outdir, nj)}[cmd]()
